@@ -174,7 +174,11 @@ def main():
     stats = {}
     suites_run = []
     oracle_unlisted = []
-    for suite in spec["suites"]:
+    suites = list(spec["suites"])
+    if tier == "thorough":
+        # "all other properties hold unchanged under both feature configurations" (C19)
+        suites += [dict(su, features="ext") for su in spec["suites"] if su["name"] in ("req", "mparse", "algebra", "pyver")]
+    for suite in suites:
         feats = suite.get("features", "")
         rc, out, exe = harness_build(feats)
         if rc != 0:
